@@ -93,4 +93,25 @@ theorem dec_twice_counterexample :
     let p := (Pos.incN t 4 Pos.init).dec t |>.dec t
     p.idx = 2 ∧ (p.line, p.col) = (1, 1) ∧ lineColGo (t.take 2) 1 1 = (1, 3) := by decide
 
+/-- **The rewinds of SkipComment are exact**: a `//` or `#` comment consumes the line end it finds ("\r\n" by `Symbol_`, two steps; '\n' by
+    `Char_`, one step) and steps back over it (`m_position -= 2` / `--m_position`).  Two steps back cross only ONE line feed here, and the
+    step in front of it was over a '\r', so the single remembered column is enough: line, column and offset are exactly what they were.
+    (With `dec_twice_counterexample` this is the boundary: two line feeds are too many, one is fine.) -/
+theorem crlf_rewind_exact (t : List UInt8) (p : Pos) (h : p.idx + 1 < t.length) (h0 : t[p.idx]? = some 13) (h1 : t[p.idx + 1]? = some 10) :
+    let q := (((p.inc t).inc t).dec t).dec t
+    q.line = p.line ∧ q.col = p.col ∧ q.idx = p.idx := by
+  have e1 : p.inc t = { p with col := p.col + 1, idx := p.idx + 1 } := by
+    unfold Pos.inc; rw [h0]; simp [NL]
+  have e2 : ({ p with col := p.col + 1, idx := p.idx + 1 } : Pos).inc t = { line := p.line + 1, col := 1, lastCol := p.col + 1, idx := p.idx + 2 } := by
+    unfold Pos.inc; simp only; rw [h1]; simp [NL]
+  have e3 : ({ line := p.line + 1, col := 1, lastCol := p.col + 1, idx := p.idx + 2 } : Pos).dec t = { line := p.line, col := p.col + 1, lastCol := p.col + 1, idx := p.idx + 1 } := by
+    unfold Pos.dec; simp only
+    have : p.idx + 2 - 1 = p.idx + 1 := by omega
+    rw [this, h1]; simp [NL]
+  have e4 : ({ line := p.line, col := p.col + 1, lastCol := p.col + 1, idx := p.idx + 1 } : Pos).dec t = { line := p.line, col := p.col, lastCol := p.col + 1, idx := p.idx } := by
+    unfold Pos.dec; simp only
+    have : p.idx + 1 - 1 = p.idx := by omega
+    rw [this, h0]; simp [NL]
+  simp only [e1, e2, e3, e4, and_self]
+
 end ChaiVerif.C20
